@@ -14,6 +14,7 @@ import (
 	"io"
 	"math/rand"
 	"os"
+	"runtime"
 	"strconv"
 	"strings"
 	"sync"
@@ -291,6 +292,11 @@ func (c *cluster) crash(n *cnode) {
 	case <-done:
 	case <-time.After(20 * time.Second):
 		c.h.rec("Y %d %d", n.id, n.life) // Shutdown did not complete
+		if os.Getenv("VERIF_TRACE") != "" {
+			buf := make([]byte, 1<<20)
+			buf = buf[:runtime.Stack(buf, true)]
+			_ = os.WriteFile("/tmp/hung_full.log", buf, 0o644)
+		}
 	}
 	c.inj.Disconnect(n.addr)
 	c.h.rec("Z %d %d %d", n.id, n.life, c.h.now())
